@@ -325,6 +325,12 @@ func (ex *Exec) callsiteChecks(e *ast.CallExpr, args []Val) {
 		for i, a := range args {
 			sc.vars[fmt.Sprintf("arg%d", i)] = a
 		}
+		// <param>0: the value a parameter of an enclosing (inlined) function had at its entry; the innermost frame wins
+		for _, fr := range ex.frames {
+			for n, v := range fr.entry {
+				sc.vars[n+"0"] = v
+			}
+		}
 		kind, lab := "F", cc.Req.Label
 		if j := strings.Index(lab, ":"); j == 1 {
 			kind, lab = lab[:1], lab[2:]
@@ -423,6 +429,7 @@ func stmtCount(n ast.Node) int {
 
 // callValue calls a function value.
 func (ex *Exec) callValue(e *ast.CallExpr, fun ast.Expr, fv Val, sig *types.Signature, args []Val, resTypes []types.Type) []Val {
+	ex.callsiteChecks(e, args)
 	if c, ok := ex.closures[fv.T.String()]; ok {
 		name := c.name
 		if name == "" {
@@ -493,7 +500,7 @@ func (ex *Exec) inlineBody(name string, sig *types.Signature, ftype *ast.FuncTyp
 		ex.findBoxed(body, pkg.TypesInfo)
 		ex.loops = nil
 	}
-	fr := &frame{sig: sig, fnName: name}
+	fr := &frame{sig: sig, fnName: name, entry: map[string]Val{}}
 	info := pkg.TypesInfo
 	ex.nInline++
 	inl := ex.nInline
@@ -511,6 +518,9 @@ func (ex *Exec) inlineBody(name string, sig *types.Signature, ftype *ast.FuncTyp
 		for _, n := range fld.Names {
 			if i < len(args) {
 				ex.define(n, args[i])
+				if n.Name != "_" {
+					fr.entry[n.Name] = args[i]
+				}
 			}
 			i++
 		}
